@@ -37,3 +37,197 @@ Qed.
 (** no shift: nothing is rounded *)
 Lemma round_even_zero m : round_even m 0 = m.
 Proof. reflexivity. Qed.
+
+(** ** integer -> f64: what the produced bit pattern denotes *)
+Require Import ZifyN ZifyBool.
+Ltac Zify.zify_post_hook ::= Z.div_mod_to_equations.
+
+Definition f64_frac (b : N) : N := b mod 2 ^ 52.
+Definition f64_exp (b : N) : N := (b / 2 ^ 52) mod 2 ^ 11.
+Definition f64_sign (b : N) : N := b / 2 ^ 63.
+(** a finite normal f64 denotes (2^52 + frac) * 2^(exp - 1075) *)
+
+Lemma size_bounds m : 0 < m -> 2 ^ (N.size m - 1) <= m < 2 ^ N.size m.
+Proof.
+  intros Hm. split; [|apply N.size_gt].
+  destruct m as [|p]; [lia|]. pose proof (N.size_le (N.pos p)) as H.
+  assert (Hs : 0 < N.size (N.pos p)) by (cbn; lia).
+  rewrite (pow_split (N.size (N.pos p)) Hs) in H. lia.
+Qed.
+
+Lemma pow_add_sub a b : b <= a -> 2 ^ a = 2 ^ (a - b) * 2 ^ b.
+Proof. intros H. rewrite <- N.pow_add_r. f_equal. lia. Qed.
+
+Lemma encode64_pos_unfold m :
+  0 < m -> N.size m <= 1024 ->
+  encode 53 11 false m 0
+  = (let k := N.size m in
+     let mant := if 53 <? k then round_even m (k - 53) else m * 2 ^ (53 - k) in
+     let body := (k + 1022) * 2 ^ 52 + (mant - 2 ^ 52) in
+     if 2047 * 2 ^ 52 <=? body then 2047 * 2 ^ 52 else body).
+Proof.
+  intros Hm Hk. unfold encode. cbv zeta.
+  change (N.shiftl 1 (11 - 1) - 1) with 1023. change (Z.of_N 1023) with 1023%Z.
+  replace (1 - 1023 <=? 0 + Z.of_N (N.size m) - 1)%Z with true by (symmetry; apply Z.leb_le; lia).
+  change (N.shiftl 1 11 - 1) with 2047. change (53 - 1) with 52.
+  rewrite !N.shiftl_mul_pow2. rewrite N.mul_1_l.
+  replace (Z.to_N (0 + Z.of_N (N.size m) - 1 + 1023)) with (N.size m + 1022) by (assert (0 < N.size m) by (destruct m; [lia|cbn; lia]); lia).
+  cbn [N.add]. reflexivity.
+Qed.
+
+(** integers of at most 53 significant bits are converted exactly *)
+Theorem f64_of_small_exact m :
+  0 < m -> N.size m <= 53 ->
+  let b := encode 53 11 false m 0 in
+  f64_sign b = 0 /\ f64_exp b = N.size m + 1022 /\ 2 ^ 52 + f64_frac b = m * 2 ^ (53 - N.size m).
+Proof.
+  intros Hm Hk. cbv zeta. rewrite encode64_pos_unfold by lia. cbv zeta.
+  replace (53 <? N.size m) with false by (symmetry; apply N.ltb_ge; exact Hk).
+  destruct (size_bounds m Hm) as [Hlo Hhi]. set (k := N.size m) in *.
+  assert (Hk0 : 0 < k) by (unfold k; destruct m; [lia|cbn; lia]).
+  set (X := m * 2 ^ (53 - k)).
+  assert (HX : 2 ^ 52 <= X < 2 ^ 53).
+  { unfold X. split.
+    - replace (2 ^ 52) with (2 ^ (k - 1) * 2 ^ (53 - k)) by (rewrite <- N.pow_add_r; f_equal; lia).
+      apply N.mul_le_mono_r. exact Hlo.
+    - replace (2 ^ 53) with (2 ^ k * 2 ^ (53 - k)) by (rewrite <- N.pow_add_r; f_equal; lia).
+      apply N.mul_lt_mono_pos_r; [apply N.neq_0_lt_0, N.pow_nonzero; lia|exact Hhi]. }
+  change (2 ^ 52) with 4503599627370496 in *. change (2 ^ 53) with 9007199254740992 in *.
+  unfold f64_sign, f64_exp, f64_frac. change (2 ^ 52) with 4503599627370496. change (2 ^ 63) with 9223372036854775808. change (2 ^ 11) with 2048.
+  assert (Hb : (2047 * 4503599627370496 <=? (k + 1022) * 4503599627370496 + (X - 4503599627370496)) = false) by (apply N.leb_gt; lia).
+  rewrite Hb. repeat split; lia.
+Qed.
+
+(** larger integers are rounded to nearest, ties to even, at the unit 2^(size - 53) *)
+Theorem f64_of_large_rounded m :
+  53 < N.size m -> N.size m <= 1024 ->
+  let k := N.size m in
+  let q := round_even m (k - 53) in
+  let b := encode 53 11 false m 0 in
+  2 ^ 52 <= q <= 2 ^ 53
+  /\ (q < 2 ^ 53 -> f64_sign b = 0 /\ f64_exp b = k + 1022 /\ 2 ^ 52 + f64_frac b = q)
+  /\ (q = 2 ^ 53 -> k < 1024 -> f64_sign b = 0 /\ f64_exp b = k + 1023 /\ f64_frac b = 0)
+  /\ (q = 2 ^ 53 -> k = 1024 -> b = 2047 * 2 ^ 52).
+Proof.
+  intros Hk Hk2. cbv zeta.
+  assert (Hm : 0 < m) by (destruct m; [cbn in Hk; lia|lia]).
+  rewrite encode64_pos_unfold by lia. cbv zeta.
+  replace (53 <? N.size m) with true by (symmetry; apply N.ltb_lt; exact Hk).
+  destruct (size_bounds m Hm) as [Hlo Hhi]. set (k := N.size m) in *. set (s := k - 53).
+  assert (Hs : 0 < s) by (unfold s; lia).
+  destruct (round_even_nearest m s Hs) as (H1 & H2 & _). set (q := round_even m s) in *.
+  (* 2^52 <= q <= 2^53 *)
+  assert (Hk1 : 2 ^ (k - 1) = 2 ^ 52 * 2 ^ s) by (rewrite <- N.pow_add_r; f_equal; unfold s; lia).
+  assert (Hkk : 2 ^ k = 2 ^ 53 * 2 ^ s) by (rewrite <- N.pow_add_r; f_equal; unfold s; lia).
+  assert (Hps : 2 ^ s = 2 * 2 ^ (s - 1)) by (apply pow_split; exact Hs).
+  assert (Hp1 : 0 < 2 ^ (s - 1)) by (apply N.neq_0_lt_0, N.pow_nonzero; lia).
+  set (P := 2 ^ (s - 1)) in *. rewrite Hps in *. rewrite Hk1 in Hlo. rewrite Hkk in Hhi.
+  change (2 ^ 52) with 4503599627370496 in *. change (2 ^ 53) with 9007199254740992 in *.
+  assert (Hq : 4503599627370496 <= q <= 9007199254740992) by nia.
+  split; [exact Hq|].
+  unfold f64_sign, f64_exp, f64_frac. change (2 ^ 52) with 4503599627370496. change (2 ^ 63) with 9223372036854775808. change (2 ^ 11) with 2048.
+  repeat split.
+  - replace (2047 * 4503599627370496 <=? (k + 1022) * 4503599627370496 + (q - 4503599627370496)) with false by (symmetry; apply N.leb_gt; lia). lia.
+  - replace (2047 * 4503599627370496 <=? (k + 1022) * 4503599627370496 + (q - 4503599627370496)) with false by (symmetry; apply N.leb_gt; lia). lia.
+  - replace (2047 * 4503599627370496 <=? (k + 1022) * 4503599627370496 + (q - 4503599627370496)) with false by (symmetry; apply N.leb_gt; lia). lia.
+  - replace (2047 * 4503599627370496 <=? (k + 1022) * 4503599627370496 + (q - 4503599627370496)) with false by (symmetry; apply N.leb_gt; lia). lia.
+  - replace (2047 * 4503599627370496 <=? (k + 1022) * 4503599627370496 + (q - 4503599627370496)) with false by (symmetry; apply N.leb_gt; lia). lia.
+  - replace (2047 * 4503599627370496 <=? (k + 1022) * 4503599627370496 + (q - 4503599627370496)) with false by (symmetry; apply N.leb_gt; lia). lia.
+  - intros Hq53 Hk1024.
+    replace (2047 * 4503599627370496 <=? (k + 1022) * 4503599627370496 + (q - 4503599627370496)) with true by (symmetry; apply N.leb_le; lia). reflexivity.
+Qed.
+
+(** ** integer -> f32 *)
+Definition f32_frac (b : N) : N := b mod 2 ^ 23.
+Definition f32_exp (b : N) : N := (b / 2 ^ 23) mod 2 ^ 8.
+Definition f32_sign (b : N) : N := b / 2 ^ 31.
+(** a finite normal f64 denotes (2^52 + frac) * 2^(exp - 1075) *)
+
+
+
+
+
+Lemma encode32_pos_unfold m :
+  0 < m -> N.size m <= 128 ->
+  encode 24 8 false m 0
+  = (let k := N.size m in
+     let mant := if 24 <? k then round_even m (k - 24) else m * 2 ^ (24 - k) in
+     let body := (k + 126) * 2 ^ 23 + (mant - 2 ^ 23) in
+     if 255 * 2 ^ 23 <=? body then 255 * 2 ^ 23 else body).
+Proof.
+  intros Hm Hk. unfold encode. cbv zeta.
+  change (N.shiftl 1 (8 - 1) - 1) with 127. change (Z.of_N 127) with 127%Z.
+  replace (1 - 127 <=? 0 + Z.of_N (N.size m) - 1)%Z with true by (symmetry; apply Z.leb_le; lia).
+  change (N.shiftl 1 8 - 1) with 255. change (24 - 1) with 23.
+  rewrite !N.shiftl_mul_pow2. rewrite N.mul_1_l.
+  replace (Z.to_N (0 + Z.of_N (N.size m) - 1 + 127)) with (N.size m + 126) by (assert (0 < N.size m) by (destruct m; [lia|cbn; lia]); lia).
+  cbn [N.add]. reflexivity.
+Qed.
+
+(** integers of at most 53 significant bits are converted exactly *)
+Theorem f32_of_small_exact m :
+  0 < m -> N.size m <= 24 ->
+  let b := encode 24 8 false m 0 in
+  f32_sign b = 0 /\ f32_exp b = N.size m + 126 /\ 2 ^ 23 + f32_frac b = m * 2 ^ (24 - N.size m).
+Proof.
+  intros Hm Hk. cbv zeta. rewrite encode32_pos_unfold by lia. cbv zeta.
+  replace (24 <? N.size m) with false by (symmetry; apply N.ltb_ge; exact Hk).
+  destruct (size_bounds m Hm) as [Hlo Hhi]. set (k := N.size m) in *.
+  assert (Hk0 : 0 < k) by (unfold k; destruct m; [lia|cbn; lia]).
+  set (X := m * 2 ^ (24 - k)).
+  assert (HX : 2 ^ 23 <= X < 2 ^ 24).
+  { unfold X. split.
+    - replace (2 ^ 23) with (2 ^ (k - 1) * 2 ^ (24 - k)) by (rewrite <- N.pow_add_r; f_equal; lia).
+      apply N.mul_le_mono_r. exact Hlo.
+    - replace (2 ^ 24) with (2 ^ k * 2 ^ (24 - k)) by (rewrite <- N.pow_add_r; f_equal; lia).
+      apply N.mul_lt_mono_pos_r; [apply N.neq_0_lt_0, N.pow_nonzero; lia|exact Hhi]. }
+  change (2 ^ 23) with 8388608 in *. change (2 ^ 24) with 16777216 in *.
+  unfold f32_sign, f32_exp, f32_frac. change (2 ^ 23) with 8388608. change (2 ^ 31) with 2147483648. change (2 ^ 8) with 256.
+  assert (Hb : (255 * 8388608 <=? (k + 126) * 8388608 + (X - 8388608)) = false) by (apply N.leb_gt; lia).
+  rewrite Hb. repeat split; lia.
+Qed.
+
+(** f32: larger integers are rounded to nearest, ties to even, at the unit 2^(size - 53) *)
+Theorem f32_of_large_rounded m :
+  24 < N.size m -> N.size m <= 128 ->
+  let k := N.size m in
+  let q := round_even m (k - 24) in
+  let b := encode 24 8 false m 0 in
+  2 ^ 23 <= q <= 2 ^ 24
+  /\ (q < 2 ^ 24 -> f32_sign b = 0 /\ f32_exp b = k + 126 /\ 2 ^ 23 + f32_frac b = q)
+  /\ (q = 2 ^ 24 -> k < 128 -> f32_sign b = 0 /\ f32_exp b = k + 127 /\ f32_frac b = 0)
+  /\ (q = 2 ^ 24 -> k = 128 -> b = 255 * 2 ^ 23).
+Proof.
+  intros Hk Hk2. cbv zeta.
+  assert (Hm : 0 < m) by (destruct m; [cbn in Hk; lia|lia]).
+  rewrite encode32_pos_unfold by lia. cbv zeta.
+  replace (24 <? N.size m) with true by (symmetry; apply N.ltb_lt; exact Hk).
+  destruct (size_bounds m Hm) as [Hlo Hhi]. set (k := N.size m) in *. set (s := k - 24).
+  assert (Hs : 0 < s) by (unfold s; lia).
+  destruct (round_even_nearest m s Hs) as (H1 & H2 & _). set (q := round_even m s) in *.
+  (* 2^52 <= q <= 2^53 *)
+  assert (Hk1 : 2 ^ (k - 1) = 2 ^ 23 * 2 ^ s) by (rewrite <- N.pow_add_r; f_equal; unfold s; lia).
+  assert (Hkk : 2 ^ k = 2 ^ 24 * 2 ^ s) by (rewrite <- N.pow_add_r; f_equal; unfold s; lia).
+  assert (Hps : 2 ^ s = 2 * 2 ^ (s - 1)) by (apply pow_split; exact Hs).
+  assert (Hp1 : 0 < 2 ^ (s - 1)) by (apply N.neq_0_lt_0, N.pow_nonzero; lia).
+  set (P := 2 ^ (s - 1)) in *. rewrite Hps in *. rewrite Hk1 in Hlo. rewrite Hkk in Hhi.
+  change (2 ^ 23) with 8388608 in *. change (2 ^ 24) with 16777216 in *.
+  assert (Hq : 8388608 <= q <= 16777216) by nia.
+  split; [exact Hq|].
+  unfold f32_sign, f32_exp, f32_frac. change (2 ^ 23) with 8388608. change (2 ^ 31) with 2147483648. change (2 ^ 8) with 256.
+  repeat split.
+  - replace (255 * 8388608 <=? (k + 126) * 8388608 + (q - 8388608)) with false by (symmetry; apply N.leb_gt; lia). lia.
+  - replace (255 * 8388608 <=? (k + 126) * 8388608 + (q - 8388608)) with false by (symmetry; apply N.leb_gt; lia). lia.
+  - replace (255 * 8388608 <=? (k + 126) * 8388608 + (q - 8388608)) with false by (symmetry; apply N.leb_gt; lia). lia.
+  - replace (255 * 8388608 <=? (k + 126) * 8388608 + (q - 8388608)) with false by (symmetry; apply N.leb_gt; lia). lia.
+  - replace (255 * 8388608 <=? (k + 126) * 8388608 + (q - 8388608)) with false by (symmetry; apply N.leb_gt; lia). lia.
+  - replace (255 * 8388608 <=? (k + 126) * 8388608 + (q - 8388608)) with false by (symmetry; apply N.leb_gt; lia). lia.
+  - intros Hq53 Hk128.
+    replace (255 * 8388608 <=? (k + 126) * 8388608 + (q - 8388608)) with true by (symmetry; apply N.leb_le; lia). reflexivity.
+Qed.
+
+(** the sign only sets the top bit *)
+Lemma encode64_neg m e : encode 53 11 true m e = 2 ^ 63 + encode 53 11 false m e.
+Proof. unfold encode. cbv zeta. rewrite N.add_0_l. reflexivity. Qed.
+Lemma encode32_neg m e : encode 24 8 true m e = 2 ^ 31 + encode 24 8 false m e.
+Proof. unfold encode. cbv zeta. rewrite N.add_0_l. reflexivity. Qed.
